@@ -21,3 +21,9 @@ pub mod endpoint;
 pub mod path;
 pub mod recovery;
 pub mod stream;
+
+/// Verification hook (cfg aws_s2n_quic_verif only): lets an external harness drive the ACK manager directly.
+#[cfg(aws_s2n_quic_verif)]
+pub mod verif {
+    pub use crate::{ack::AckManager, processed_packet::ProcessedPacket};
+}
